@@ -839,7 +839,7 @@ Theorem sound_insts d n :
 Proof.
   intros Hs He. unfold supported in Hs. destruct (classify d) as [a|] eqn:Ec; [|discriminate].
   destruct (grammar d) as [b|] eqn:Eg; [|discriminate].
-  apply andb_true_iff in Hs as [Hs _]. apply andb_true_iff in Hs as [Hs Hnd]. apply andb_true_iff in Hs as [Heq _].
+  apply andb_true_iff in Hs as [Hs _]. apply andb_true_iff in Hs as [Hs _]. apply andb_true_iff in Hs as [Hs Hnd]. apply andb_true_iff in Hs as [Heq _].
   apply stmts_eqb_eq in Heq. subst b. apply nodup_strs_NoDup in Hnd.
   exists a. split; [reflexivity|]. intros nm Hn.
   pose proof (elab_inv d n He) as HI.
